@@ -336,8 +336,6 @@ def _inline_exception_tuples(tree):
     for s in tree.body:
         if isinstance(s, ast.Assign) and len(s.targets) == 1 and isinstance(s.targets[0], ast.Name) and isinstance(s.value, ast.Tuple) and s.value.elts and all(isinstance(e, (ast.Name, ast.Attribute)) for e in s.value.elts):
             consts[s.targets[0].id] = s.value
-    if not consts:
-        return
     stores = {}
     for n in ast.walk(tree):
         if isinstance(n, ast.Name) and isinstance(n.ctx, (ast.Store, ast.Del)) and n.id in consts:
@@ -348,6 +346,24 @@ def _inline_exception_tuples(tree):
     for n in ast.walk(tree):
         if isinstance(n, ast.ExceptHandler) and isinstance(n.type, ast.Name) and n.type.id in consts and stores.get(n.type.id, 0) == 1:
             n.type = ast.copy_location(_copy.deepcopy(consts[n.type.id]), n.type)
+    # `for k in NAMES:` where NAMES is a module constant bound once to a tuple of literals reads as the literal tuple
+    lits = {}
+    for s in tree.body:
+        if isinstance(s, ast.Assign) and len(s.targets) == 1 and isinstance(s.targets[0], ast.Name) and isinstance(s.value, (ast.Tuple, ast.List)) and s.value.elts and all(isinstance(e, ast.Constant) for e in s.value.elts):
+            lits[s.targets[0].id] = s.value
+    if lits:
+        nst = {}
+        for n in ast.walk(tree):
+            if isinstance(n, ast.Name) and isinstance(n.ctx, (ast.Store, ast.Del)) and n.id in lits:
+                nst[n.id] = nst.get(n.id, 0) + 1
+            elif isinstance(n, (ast.Global, ast.Nonlocal)):
+                for g in n.names:
+                    nst[g] = nst.get(g, 0) + 2
+            elif isinstance(n, ast.Call) and isinstance(n.func, ast.Attribute) and isinstance(n.func.value, ast.Name) and n.func.value.id in lits and n.func.attr in ("append", "extend", "insert", "remove", "pop", "clear", "sort", "reverse"):
+                nst[n.func.value.id] = nst.get(n.func.value.id, 0) + 2
+        for n in ast.walk(tree):
+            if isinstance(n, ast.For) and isinstance(n.iter, ast.Name) and n.iter.id in lits and nst.get(n.iter.id, 0) == 1:
+                n.iter = ast.copy_location(ast.Tuple(elts=[_copy.deepcopy(e) for e in lits[n.iter.id].elts], ctx=ast.Load()), n.iter)
     ast.fix_missing_locations(tree)
 
 
@@ -449,6 +465,13 @@ def _normalise_syntax(tree):
             # `x if x else d`  ->  `x or d`
             if ast.dump(n.test) == ast.dump(n.body):
                 return ast.copy_location(ast.BoolOp(op=ast.Or(), values=[n.test, n.orelse]), n)
+            return n
+
+        def visit_Call(self, n):
+            self.generic_visit(n)
+            # getattr(obj, "name") with a literal identifier is obj.name
+            if isinstance(n.func, ast.Name) and n.func.id == "getattr" and len(n.args) == 2 and not n.keywords and isinstance(n.args[1], ast.Constant) and isinstance(n.args[1].value, str) and n.args[1].value.isidentifier():
+                return ast.copy_location(ast.Attribute(value=n.args[0], attr=n.args[1].value, ctx=ast.Load()), n)
             return n
 
         def visit_UnaryOp(self, n):
